@@ -1757,6 +1757,27 @@ theorem foldAt_error_justified (a' i' : Expr) (err : ExecErr) (h : foldAt a' i' 
     exact ⟨s, k, rfl, rfl, ofExec_err h⟩
   · simp at h
 
+/-! ## the open finding F07, as a witness
+
+The pass runs a second time whenever a closure is created, with the CAPTURED VALUES recorded as constants
+(`AnonymousFunction::exec` / `FunctionDeclaration::exec`).  The theorems above do not cover that use, and it
+is not unobservable: folding the body of a function that is never called can report an error.  The body
+`return 10 / d`, folded with the captured `d = 0` recorded, answers `ZeroDivision` - while the program that
+only CREATES such a function completes under the reference semantics. -/
+
+def f07Body : List Expr := [.ret (some (.bin .div (.litInt 10) (.var "d")))]
+
+theorem f07_fold_at_creation_reports_an_error :
+    foldSeq true [("d", some (.litInt 0), false)] f07Body = .error (.exec .ZeroDivision) := by
+  simp [f07Body, foldSeq, fold, foldOpt, foldBin, CEnv.lookup, crConst, crVal, isCreationLit, isConst, foldsConst,
+    ofExec, valOf, Spec.binScalar, Spec.ofScalar, bind, Except.bind]
+  rw [C08.div_zero (10#64) (0#64) (by decide)]
+
+theorem f07_program_completes (σ : St) :
+    (evalSeq 10 [[("d", .int 0)]] [.set "f" (.fn [] .int f07Body), .litInt 0] σ).1 =
+      .ok (.int 0, [[("f", .fn σ.nextId [] .int f07Body [("d", .int 0)] none), ("d", .int 0)]]) := by
+  simp [evalSeq, evalStmt, evalStmtValue, eval, freshId, bindM_def, pure, Env.insert, Env.snapshot]
+
 /-- the hypotheses are satisfiable by a program on which the pass does something: constants are
     propagated through a name into a block, an operator is folded, a branch is pruned, a constant
     statement is dropped -/
